@@ -278,6 +278,8 @@ class Engine:
                 lim = min(avail, room)
                 if rng.random() > split_bias:
                     lim = min(lim, self.wlmax)
+                else:
+                    lim = min(lim, self.wlmax * rng.choice([1.5, 2, 3, 5, 12, 30]))
                 v = self._class_value(lim * rng.choice([0.5, 0.9, 1.0])) if lim > 0 else 0.0
             else:
                 side = rng.choice(["src", "dst"])
